@@ -32,6 +32,19 @@ func successorAgrees(p *board.Position, turn board.Color, o *oracle.Pos, om orac
 			}
 		}
 	}
+	// ... and a text that names no move of the game names none: the same squares with a promotion
+	// piece the move does not have (or without the one it has)
+	for _, wrong := range wrongTexts(om) {
+		named, err := board.ParseMove(wrong)
+		if err != nil {
+			continue
+		}
+		for _, m := range p.PseudoLegalMoves(turn) {
+			if bridge.Text(m) != wrong && (named.Equals(m) || m.Equals(named)) {
+				return nil, fmt.Errorf("in %v the text %q (not the text of %v) equals the generated move %v: named.Equals=%v, generated.Equals=%v", o.KeyFEN(), wrong, m, m, named.Equals(m), m.Equals(named))
+			}
+		}
+	}
 	before := *p
 	next, ok := p.Move(rm)
 	if !ok || next == nil {
@@ -202,4 +215,19 @@ func TestC02_synth(t *testing.T) {
 		stats.Sample("C02/synth", c.FEN)
 		return checkC02Synth(c)
 	})
+}
+
+// wrongTexts: the text of a legal move with its promotion suffix altered.
+func wrongTexts(om oracle.Move) []string {
+	t := om.String()
+	if len(t) == 5 {
+		ret := []string{t[:4]}
+		for _, c := range "qrbn" {
+			if byte(c) != t[4] {
+				ret = append(ret, t[:4]+string(c))
+			}
+		}
+		return ret
+	}
+	return []string{t + "q", t + "n"}
 }
